@@ -168,10 +168,13 @@ def expand_procedures(func: ast.FunctionDef, resolver, depth: int = 0) -> ast.Fu
 class Flow:
     def __init__(self, func: ast.FunctionDef, file: str = "", consts: dict | None = None,
                  self_name: str | None = None, keep_arms: bool = False, resolver=None, _depth: int = 0, _env: dict | None = None,
-                 proc_resolver=None, func_resolver=None):
+                 proc_resolver=None, func_resolver=None, raise_arms: bool = False):
         # proc_resolver: name -> FunctionDef of a helper PROCEDURE of the same class, expanded in place as statements
         # func_resolver: name -> FunctionDef of a small pure MODULE-LEVEL helper function called by its bare name (inlined)
+        # raise_arms: an inlined helper's `raise` paths become ("raise", exc) leaves of the phi value (a dispatch chain moved into a
+        #             helper keeps its refusing arms); without it a helper that can raise stays an opaque call
         self.func_resolver = func_resolver
+        self.raise_arms = raise_arms
         if proc_resolver is not None and _depth == 0:
             func = expand_procedures(func, proc_resolver)
         self.keep_arms = keep_arms
@@ -553,9 +556,10 @@ class Flow:
                 if preset[p_] is None:
                     return None
         sub = Flow(callee, self.file, keep_arms=False, resolver=self.resolver, _depth=self._depth + 1, _env=preset, consts=self.consts,
-                   func_resolver=self.func_resolver)
-        rets = [(f.value, list(f.guards)) for f in sub.facts if f.kind == "return"]
-        if not rets or any(f.kind in ("store", "augstore", "attrstore", "append", "mutate") for f in sub.facts):
+                   func_resolver=self.func_resolver, raise_arms=self.raise_arms)
+        rets = [(f.value if f.kind == "return" else ("raise", f.value if f.value is not None else ("const", None)), list(f.guards))
+                for f in sub.facts if f.kind == "return" or (f.kind == "raise" and self.raise_arms)]
+        if not any(f.kind == "return" for f in sub.facts) or any(f.kind in ("store", "augstore", "attrstore", "append", "mutate") for f in sub.facts):
             return None
 
         return phi_of_paths(rets)
@@ -1213,6 +1217,36 @@ def simp(v):
         # getattr(x, "name") is x.name
         if fn == "getattr" and len(args) == 2 and args[1][0] == "const" and isinstance(args[1][1], str) and args[1][1].isidentifier():
             return ("attr", args[0], args[1][1])
+    # functools.reduce(lambda acc, x: body, <display of known elements>, init) is the left fold written out:
+    # body[acc:=body[acc:=init, x:=e1], x:=e2] ...   (e.g. a chain of str.replace driven by a table of pairs)
+    if k == "call" and v[1] in (("global", "reduce"), ("attr", ("global", "functools"), "reduce")) and len(v[2]) == 3 and not v[3] \
+            and v[2][0][0] == "lambda" and len(v[2][0][1]) == 2 and v[2][1][0] in ("tuple", "list") and len(v[2][1][1]) <= 16 \
+            and not any(e[0] == "star" for e in v[2][1][1]):
+        (p_acc, p_x), body = v[2][0][1], v[2][0][2]
+        acc = v[2][2]
+        for e in v[2][1][1]:
+            acc = simp(subst(body, {p_acc: acc, p_x: e}))
+        return acc
+    # map(f, X) is the generator (f(x) for x in X)
+    if k == "call" and v[1] == ("global", "map") and len(v[2]) == 2 and not v[3] and v[2][0][0] in ("global", "attr", "lambda", "param"):
+        bv = ("bv", "_m", next(_fresh))
+        fv = v[2][0]
+        elt = simp(subst(fv[2], {fv[1][0]: bv})) if fv[0] == "lambda" and len(fv[1]) == 1 else ("call", fv, (bv,), ())
+        return ("comp", "gen", elt, ((bv, v[2][1], ()),))
+    # a display with a starred display inside is one display: [a, *[b, c], d] == [a, b, c, d]
+    if k in ("list", "tuple", "set") and any(e[0] == "star" and e[1][0] in ("list", "tuple") for e in v[1]):
+        elts = []
+        for e in v[1]:
+            if e[0] == "star" and e[1][0] in ("list", "tuple"):
+                elts.extend(e[1][1])
+            else:
+                elts.append(e)
+        return simp((k, tuple(elts)))
+    # a slice of an unfiltered one-to-one list comprehension is the comprehension over the slice: [f(x) for x in L][a:b] == [f(x) for x in L[a:b]]
+    if k == "sub" and v[2][0] == "slice" and v[1][0] == "comp" and v[1][1] == "list" and len(v[1][3]) == 1 and not v[1][3][0][2] \
+            and v[1][3][0][0] is not None and v[1][3][0][0][0] == "bv":
+        tg, it, _ = v[1][3][0]
+        return simp(("comp", "list", v[1][2], ((tg, ("sub", it, v[2]), ()),)))
     # "ab" * 3
     if k == "binop" and v[1] == "Mult" and {v[2][0], v[3][0]} == {"const"}:
         a, b = v[2][1], v[3][1]
